@@ -157,13 +157,21 @@ func evObserve(env *evEnv, c common.InternalAddress, balBefore *big.Int, ret []b
 }
 
 // aonOracle is the property's own predicate, evaluated on the observation.
-func aonOracle(o *h.Out, kind, obs string, value *big.Int, idx int) {
+func aonOracle(o *h.Out, kind, obs string, value *big.Int, idx int, gasWord *big.Int, legacy bool) {
 	var s, d, e string
 	fmt.Sscanf(strings.ReplaceAll(obs, "=", " "), "s %s d %s e %s", &s, &d, &e)
 	switch {
 	case s == "1":
 		if !strings.HasPrefix(e, fmt.Sprintf("%s,%d,", value, idx)) || d == "0" {
 			o.Violate("c05-success-without-exact-etx:"+kind, "success reported but "+obs)
+		}
+		if gasWord != nil && !strings.HasSuffix(e, ","+gasWord.String()) {
+			// the sender prepays the fee for the gas-limit word it names; the ETX must carry exactly that gas limit
+			sig := "c05-etx-gas-differs-from-requested:" + kind
+			if legacy && kind == "conv" {
+				sig += ":legacy-gas-word" // before SelfDestructRefundForkBlock CONVERT has no upper bound on the word (known finding)
+			}
+			o.Violate(sig, fmt.Sprintf("gas-limit word %s requested (and charged for), %s", gasWord, obs))
 		}
 	case s == "0":
 		if d != "0" || e != "none" {
@@ -191,7 +199,9 @@ func runEVM(seed uint64, n int, outDir string, replay string) {
 					o.Pad("panic %v", p)
 				}
 			}()
-			switch rc.Intn(14) {
+			switch rc.Intn(15) {
+			case 14:
+				evGasPurchase(o, rc, ans)
 			case 12, 13:
 				evOneCreate(o, rc, ans)
 			case 0, 1, 2:
@@ -209,6 +219,100 @@ func runEVM(seed uint64, n int, outDir string, replay string) {
 		o.EndCase(fmt.Sprint(rc.U64()), true)
 	}
 	o.Close(nil)
+}
+
+// evGasPurchase: a plain value transfer through core.ApplyMessage with every size of gas price - ordinary, 2^64, 2^128,
+// around 2^256 / gas limit (where gas limit x price passes 2^256), 2^255, 2^256-1 - and payer balances below, at and above
+// the cost.  T3: the transaction is either refused with every balance unchanged, or the payer ends with exactly
+// balance - gas used x price - value and the recipient with + value: buying and refunding gas never creates value, in
+// particular not when a product no longer fits a machine word of any width.
+func evGasPurchase(o *h.Out, rc *h.Rng, ans func(string)) {
+	o.Op("note")
+	ans("ok")
+	eligible := true
+	env := newEvEnv(params.SelfDestructRefundForkBlock+10, big.NewInt(1), &eligible)
+	gasLimit := uint64(21000 + rc.Intn(200000))
+	if rc.Bool() {
+		gasLimit = 100000
+	}
+	two := func(n uint) *big.Int { return new(big.Int).Lsh(big.NewInt(1), n) }
+	wrap := new(big.Int).Div(two(256), new(big.Int).SetUint64(gasLimit)) // the largest price whose product still fits 256 bits
+	var price *big.Int
+	switch rc.Intn(9) {
+	case 0:
+		price = big.NewInt(int64(1 + rc.Intn(100)))
+	case 1:
+		price = new(big.Int).Add(two(64), big.NewInt(int64(rc.Intn(5))))
+	case 2:
+		price = two(128)
+	case 3:
+		price = new(big.Int).Add(wrap, big.NewInt(int64(1+rc.Intn(3))))
+	case 4:
+		price = new(big.Int).Sub(wrap, big.NewInt(int64(rc.Intn(3))))
+	case 5:
+		price = two(255)
+	case 6:
+		price = new(big.Int).Sub(two(256), big.NewInt(int64(1+rc.Intn(3))))
+	case 7:
+		price = new(big.Int).Mul(wrap, big.NewInt(int64(2+rc.Intn(5))))
+	default:
+		price = two(uint(1 + rc.Intn(255)))
+	}
+	value := big.NewInt(int64(rc.Intn(1000)))
+	cost := new(big.Int).Add(new(big.Int).Mul(new(big.Int).SetUint64(gasLimit), price), value)
+	var bal *big.Int
+	switch rc.Intn(5) {
+	case 0:
+		bal = new(big.Int).Set(cost)
+	case 1:
+		bal = new(big.Int).Sub(cost, big.NewInt(1))
+	case 2:
+		bal = big.NewInt(int64(1_000_000 + rc.Intn(1_000_000_000))) // what a wrapped-around cost would fit into
+	case 3:
+		bal = new(big.Int).Add(cost, big.NewInt(int64(rc.Intn(1000))))
+	default:
+		bal = new(big.Int).Sub(two(256), big.NewInt(1))
+	}
+	if bal.Sign() < 0 {
+		bal = new(big.Int)
+	}
+	payer, rcpt := evContract(0xee), evContract(0x31)
+	env.sdb.CreateAccount(payer)
+	env.sdb.AddBalance(payer, bal)
+	env.sdb.CreateAccount(rcpt)
+	env.sdb.AddBalance(rcpt, big.NewInt(5))
+	env.evm.TxContext.GasPrice = price
+	to := common.NewAddressFromData(&rcpt)
+	msg := types.NewMessage(common.NewAddressFromData(&payer), &to, 0, value, gasLimit, price, nil, types.AccessList{{Address: to}}, false)
+	res, err := core.ApplyMessage(env.evm, msg, new(types.GasPool).AddGas(gasLimit))
+	pa, ra := env.sdb.GetBalance(payer), env.sdb.GetBalance(rcpt)
+	desc := fmt.Sprintf("gas limit %d, gas price %s, value %s, payer balance %s (cost %s)", gasLimit, price, value, bal, cost)
+	switch {
+	case err != nil:
+		o.Count("gaspurchase:refused")
+		if pa.Cmp(bal) != 0 || ra.Cmp(big.NewInt(5)) != 0 {
+			o.Violate("c02-refused-transaction-moves-value", fmt.Sprintf("%s: refused (%v) but the payer holds %s and the recipient %s", desc, err, pa, ra))
+		}
+		if bal.Cmp(cost) >= 0 && price.BitLen() <= 256 {
+			o.Count("gaspurchase:refused-although-affordable")
+		}
+	default:
+		o.Count("gaspurchase:executed")
+		if bal.Cmp(cost) < 0 {
+			o.Violate("c02-gas-bought-without-funds", fmt.Sprintf("%s: executed although the payer cannot cover gas limit x price + value", desc))
+		}
+		moved := new(big.Int)
+		if !res.Failed() {
+			moved = value
+		}
+		want := new(big.Int).Sub(new(big.Int).Sub(bal, new(big.Int).Mul(new(big.Int).SetUint64(res.UsedGas), price)), moved)
+		if pa.Cmp(want) != 0 {
+			o.Violate("c02-gas-purchase-creates-or-loses-value", fmt.Sprintf("%s: used %d gas; the payer ends with %s, balance - gas used x price - value is %s", desc, res.UsedGas, pa, want))
+		}
+		if wantR := new(big.Int).Add(big.NewInt(5), moved); ra.Cmp(wantR) != 0 {
+			o.Violate("c02-gas-purchase-creates-or-loses-value", fmt.Sprintf("%s: the recipient ends with %s instead of %s", desc, ra, wantR))
+		}
+	}
 }
 
 func evOneETX(o *h.Out, rc *h.Rng, ans func(string)) {
@@ -232,6 +336,10 @@ func evOneETX(o *h.Out, rc *h.Rng, ans func(string)) {
 		}
 		tip, feeCap = big.NewInt(int64(rc.Intn(5))), big.NewInt(int64(rc.Intn(5)))
 		value = big.NewInt(int64(rc.Intn(100000)))
+		if rc.Chance(12) {
+			// a gas-limit word beyond 64 bits whose low 64 bits alone would be a valid gas limit
+			gasLimit = new(big.Int).Add(new(big.Int).Lsh(big.NewInt(int64(1+rc.Intn(3))), uint(64+rc.Intn(3)*64)), big.NewInt(int64(21000+rc.Intn(50000))))
+		}
 	}
 	// balance around the total
 	total := new(big.Int).Add(tip, feeCap)
@@ -285,7 +393,7 @@ func evOneETX(o *h.Out, rc *h.Rng, ans func(string)) {
 	ret, _, _, err := env.evm.Call(vm.AccountRef(common.NewAddressFromData(ptr(evContract(0xee)))), common.NewAddressFromData(&c1), nil, 5_000_000, new(big.Int))
 	obs := evObserve(env, c1, balance, ret, err, cacheLen)
 	ans(obs)
-	aonOracle(o, "etx", obs, value, cacheLen)
+	aonOracle(o, "etx", obs, value, cacheLen, gasLimit, pt < params.SelfDestructRefundForkBlock)
 }
 
 func evOneConvert(o *h.Out, rc *h.Rng, ans func(string)) {
@@ -317,6 +425,9 @@ func evOneConvert(o *h.Out, rc *h.Rng, ans func(string)) {
 	}
 	if rc.Chance(10) {
 		gasLimit = u256(rc)
+	} else if rc.Chance(10) {
+		// a gas-limit word beyond 64 bits whose low 64 bits alone would be a valid gas limit
+		gasLimit = new(big.Int).Add(new(big.Int).Lsh(big.NewInt(int64(1+rc.Intn(3))), uint(64+rc.Intn(3)*64)), big.NewInt(int64(21000+rc.Intn(50000))))
 	}
 	total := new(big.Int).Mul(gasPrice, gasLimit)
 	total.Add(total, value).Mod(total, new(big.Int).Lsh(big.NewInt(1), 256))
@@ -344,7 +455,7 @@ func evOneConvert(o *h.Out, rc *h.Rng, ans func(string)) {
 	ret, _, _, err := env.evm.Call(vm.AccountRef(common.NewAddressFromData(ptr(evContract(0xee)))), common.NewAddressFromData(&c1), nil, 5_000_000, new(big.Int))
 	obs := evObserve(env, c1, balance, ret, err, cacheLen)
 	ans(obs)
-	aonOracle(o, "conv", obs, value, cacheLen)
+	aonOracle(o, "conv", obs, value, cacheLen, gasLimit, pt < params.SelfDestructRefundForkBlock)
 }
 
 // evOneCall: contract C1 performs CALL(gas, foreignAddr, value) and returns the CALL status.
@@ -401,7 +512,7 @@ func evOneCall(o *h.Out, rc *h.Rng, ans func(string)) {
 	}
 	obs := evObserve(env, snd, balance, ret, nil, cacheLen)
 	ans(obs)
-	aonOracle(o, "xcall", obs, value, cacheLen)
+	aonOracle(o, "xcall", obs, value, cacheLen, nil, false)
 	_ = c1
 }
 
